@@ -244,6 +244,16 @@ pub fn gen_numeral(rng: &mut Rng) -> String {
             1 => s.push('-'),
             _ => {}
         }
+        if rng.chance(1, 6) {
+            s.push_str("00");
+        }
+        if rng.chance(1, 16) {
+            // exponents at the edge of the 64-bit scale range (and beyond)
+            let edges: [&str; 8] = ["9223372036854775807", "9223372036854775808", "9223372036854775809", "9223372036854775806", "18446744073709551615", "18446744073709551616", "4611686018427387904", "99999999999999999999999999999999999999999"];
+            let e: &str = *rng.pick(&edges);
+            s.push_str(e);
+            return s;
+        }
         let e = match rng.below(8) {
             0..=3 => rng.below(40),
             4 => rng.below(400),
@@ -251,9 +261,6 @@ pub fn gen_numeral(rng: &mut Rng) -> String {
             6 => rng.log_range(1_000_000_000_000),
             _ => rng.below(160_000),
         };
-        if rng.chance(1, 6) {
-            s.push_str("00");
-        }
         s.push_str(&e.to_string());
     }
     s
